@@ -401,6 +401,7 @@ gen_c18()
 
 } // namespace
 
+#ifndef VERIF_FUZZ
 int
 main(int argc, char **argv)
 {
@@ -419,3 +420,4 @@ main(int argc, char **argv)
 	};
 	return pbt::pbt_main(argc, argv, sp);
 }
+#endif
